@@ -106,6 +106,7 @@ type stream struct {
 	rdl, wdl deadline
 	nread    int64
 	nwritten int64
+	holdTail int // > 0: keep that many bytes back until the writer closes, then hand the last bytes over together with io.EOF
 	rng      uint64
 }
 
@@ -165,8 +166,11 @@ func (s *stream) read(p []byte) (int, error) {
 		if len(p) == 0 {
 			return 0, nil
 		}
-		if len(s.buf) > 0 {
-			n := len(s.buf)
+		if avail := len(s.buf); avail > 0 && (s.holdTail == 0 || s.wclosed || avail > s.holdTail) {
+			n := avail
+			if s.holdTail > 0 && !s.wclosed {
+				n = avail - s.holdTail
+			}
 			if n > len(p) {
 				n = len(p)
 			}
@@ -180,9 +184,13 @@ func (s *stream) read(p []byte) (int, error) {
 			s.buf = s.buf[n:]
 			s.nread += int64(n)
 			s.cond.Broadcast()
+			if s.holdTail > 0 && s.wclosed && len(s.buf) == 0 {
+				// io.Reader allows n > 0 together with io.EOF; SetEOFWithData asks for exactly that
+				return n, io.EOF
+			}
 			return n, nil
 		}
-		if s.wclosed {
+		if s.wclosed && len(s.buf) == 0 {
 			return 0, io.EOF
 		}
 		s.cond.Wait()
@@ -286,6 +294,17 @@ func (c *Conn) Close() error {
 // peer's writes fail with io.ErrClosedPipe at once, while this endpoint can still write and the peer still
 // reads what was written (additive; used to make a victim's answer writes fail while its input is still open).
 func (c *Conn) CloseRead() error { c.in.closeRead(); return nil }
+
+// SetEOFWithData changes how the end of the incoming stream is delivered to this endpoint (additive, default off):
+// with hold > 0 the last hold bytes are kept back until the peer has closed its write side, and the final Read
+// returns them together with io.EOF (n > 0, io.EOF), as the io.Reader contract allows. Reads never deliver less
+// than they would otherwise except for that tail; call it when no reply depends on the held bytes (data phase).
+func (c *Conn) SetEOFWithData(hold int) {
+	c.in.mu.Lock()
+	c.in.holdTail = hold
+	c.in.cond.Broadcast()
+	c.in.mu.Unlock()
+}
 
 // CloseWrite half-closes: the peer reads EOF after draining.
 func (c *Conn) CloseWrite() error { c.out.closeWrite(); return nil }
